@@ -1,0 +1,49 @@
+//go:build verif
+
+// Contracts for the contract-based verification in /verif (comment-only file).
+
+package beacon
+
+//@ # ---- C26 beacon selection. Link diversity and segment length are abstract functions of a beacon here;
+//@ # Diversity's own loops are not under contract (trusted: result is a function of the two beacons).
+//@ spec func div(best Beacon, b Beacon) int uninterpreted
+//@ func (Beacon).Diversity
+//@   trusted
+//@   modifies nothing
+//@   ensures result == div(b, other) && result >= 0
+
+//@ func (baseAlgo).selectMostDiverse
+//@   props C26
+//@   requires forall i int :: 0 <= i && i < len(beacons) ==> beacons[i].Segment != nil
+//@   loop 1 invariant 0 <= (rangeindex+1) && (rangeindex+1) <= len(beacons) && maxDiversity >= -1
+//@   loop 1 invariant forall j int :: 0 <= j && j < (rangeindex+1) ==> div(best, beacons[j]) <= maxDiversity
+//@   loop 1 invariant (rangeindex+1) > 0 ==> maxDiversity == div(best, diverse) && diverse.Segment != nil && minLen == len(diverse.Segment.ASEntries)
+//@   loop 1 invariant (rangeindex+1) > 0 ==> exists j int :: 0 <= j && j < (rangeindex+1) && diverse == beacons[j]
+//@   loop 1 invariant (rangeindex+1) == 0 ==> maxDiversity == -1
+//@   loop 1 invariant (rangeindex+1) > 0 ==> maxDiversity >= 0
+//@   loop 1 invariant forall j int :: 0 <= j && j < (rangeindex+1) && div(best, beacons[j]) == maxDiversity ==> minLen <= len(beacons[j].Segment.ASEntries)
+//@   modifies nothing
+//@   ensures len(beacons) == 0 ==> result1 == -1
+//@   ensures len(beacons) > 0 ==> result1 >= 0
+//@   ensures forall j int :: 0 <= j && j < len(beacons) ==> div(best, beacons[j]) <= result1
+//@   ensures len(beacons) > 0 ==> result1 == div(best, result0) && result0.Segment != nil
+//@   ensures len(beacons) > 0 ==> exists j int :: 0 <= j && j < len(beacons) && result0 == beacons[j]
+//@   ensures forall j int :: 0 <= j && j < len(beacons) && div(best, beacons[j]) == result1 ==> len(result0.Segment.ASEntries) <= len(beacons[j].Segment.ASEntries)
+
+//@ # the selection rule, written from the property statement (b0 = the first, i.e. shortest, candidate)
+//@ func (baseAlgo).SelectBeacons
+//@   props C26
+//@   requires resultSize >= 1
+//@   requires forall i int :: 0 <= i && i < len(beacons) ==> beacons[i].Segment != nil
+//@   let n = len(beacons)
+//@   let k = resultSize
+//@   let b0 = beacons[0]
+//@   modifies nothing
+//@   ensures n <= k ==> result == beacons
+//@   ensures n > k ==> len(result) == k
+//@   ensures n > k ==> forall i int :: 0 <= i && i < k-1 ==> result[i] == beacons[i]
+//@   ensures n > k ==> exists j int :: k-1 <= j && j < n && result[k-1] == beacons[j]
+//@   ensures n > k ==> (forall i int :: k-1 <= i && i < n ==> div(b0, beacons[i]) <= div(b0, result[k-1])) || result[k-1] == beacons[k-1]
+//@   ensures n > k && k == 1 ==> forall i int :: 0 <= i && i < n ==> div(b0, beacons[i]) <= div(b0, result[0])
+//@   ensures n > k && result[k-1] != beacons[k-1] ==> forall i int :: 0 <= i && i < k-1 ==> div(b0, beacons[i]) < div(b0, result[k-1])
+//@   ensures n > k && result[k-1] != beacons[k-1] ==> forall i int :: k-1 <= i && i < n && div(b0, beacons[i]) == div(b0, result[k-1]) ==> len(result[k-1].Segment.ASEntries) <= len(beacons[i].Segment.ASEntries)
